@@ -49,6 +49,8 @@ type blockRec struct {
 	gasRewards *big.Int
 	subsidy    *big.Int
 	gasLimit   uint64
+	stateErr   string                   // error recorded by the builder's StateDB in this block ("" normally)
+	dropped    *big.Int                 // value detained by successful create/deposit/delegation-add txs of this block whose hash is in no persisted pending record
 	effective  []chainkit.PendingRecord // records that took effect in this block (period end), in trie order
 	periodEnd  bool
 	lines      []string // the scenario lines of this block (B line first)
@@ -81,6 +83,8 @@ func splitBlocks(lines []string) [][]string {
 type session struct {
 	w  *world
 	rr *runResult
+	// continueOnStateErr: keep building after the builder's StateDB recorded an error (probe of F-C07e); generated chains stop there
+	continueOnStateErr bool
 }
 
 func newSession(header []string) (*session, []string, error) {
@@ -112,11 +116,23 @@ func (w *world) headerLines() []string {
 	return out
 }
 
-func execScenario(lines []string) (*runResult, error) {
+func txIndex(txs types.Transactions, h common.Hash) int {
+	for i, t := range txs {
+		if t.Hash() == h {
+			return i
+		}
+	}
+	return 0
+}
+
+func execScenario(lines []string) (*runResult, error) { return execScenarioOpt(lines, false) }
+
+func execScenarioOpt(lines []string, continueOnStateErr bool) (*runResult, error) {
 	s, rest, err := newSession(lines)
 	if err != nil {
 		return nil, err
 	}
+	s.continueOnStateErr = continueOnStateErr
 	defer s.close()
 	for _, bl := range splitBlocks(rest) {
 		if err := s.runBlock(bl); err != nil {
@@ -255,7 +271,8 @@ func (s *session) runBlock(bl []string) error {
 			rr.blocks = append(rr.blocks, br)
 			return nil
 		}
-		if built.StateErr != "" {
+		br.stateErr = built.StateErr
+		if built.StateErr != "" && !s.continueOnStateErr {
 			// e.g. "rlp: cannot encode negative *big.Int": the pending-total record of a validator went negative; the header's
 			// staking root depends on map iteration order and no node (not even the builder) reproduces it. Not a C07 matter
 			// (the block never becomes part of a chain); reported for C06 and the chain stops here.
@@ -287,6 +304,22 @@ func (s *session) runBlock(bl []string) error {
 		pend, err := w.kit.B.Pending()
 		if err != nil {
 			return err
+		}
+		br.dropped = new(big.Int)
+		if !br.periodEnd {
+			have := map[common.Hash]bool{}
+			for _, p := range pend {
+				for _, t := range p.Txs {
+					have[t.Hash] = true
+				}
+			}
+			for _, t := range br.txs {
+				if t.included && !t.failed && t.to == params.StakingModuleAddress && !have[t.hash] {
+					if p, e := chainkit.DecodeStakingTx(w.kit.Signer, built.Block.Transactions()[txIndex(built.Block.Transactions(), t.hash)]); e == nil {
+						br.dropped.Add(br.dropped, p.Value)
+					}
+				}
+			}
 		}
 		br.led = w.ledgerOf(d, pend)
 		br.parts = br.led.parts()
